@@ -318,9 +318,15 @@ func genCmdCase(t *rapid.T) interface{} {
 	c.Type = rapid.SampledFrom([]string{command.TypeSendToEth, command.TypeSendToBsc, command.TypeSendToHub, command.TypeSendToHub, "send_to_minter", ""}).Draw(t, "type")
 	c.Recipient = rapid.SampledFrom([]string{
 		"0x58BD8047F441B9D511aEE9c581aEb1caB4FE0b6d", "58bd8047f441b9d511aee9c581aeb1cab4fe0b6d", "0x58BD8047F441B9D511aEE9c581aEb1caB4FE0b6", "0xZZBD8047F441B9D511aEE9c581aEb1caB4FE0b6d", "",
-		"@hub", "@cosmos", "@hubbad", "Mx58bd8047f441b9d511aee9c581aeb1cab4fe0b6d",
+		"@hub", "@cosmos", "@hubbad", "Mx58bd8047f441b9d511aee9c581aeb1cab4fe0b6d", "@hubempty", "@hublong", "@hub32",
 	}).Draw(t, "rcpt")
 	switch c.Recipient {
+	case "@hubempty": // well-formed bech32 with the hub prefix and no address bytes at all
+		c.Recipient, _ = bech32.ConvertAndEncode("hub", []byte{})
+	case "@hublong": // ... and with more bytes than an account address may have
+		c.Recipient, _ = bech32.ConvertAndEncode("hub", make([]byte, 256))
+	case "@hub32": // a 32-byte account address (valid)
+		c.Recipient, _ = bech32.ConvertAndEncode("hub", []byte("verif-32-byte-account-address-01"))
 	case "@hub":
 		c.Recipient = hubAddr
 	case "@cosmos":
